@@ -595,6 +595,49 @@ k = Lazy.SAVE
 q = [(Lazy.WRITE, (1,)), (Lazy.SAVE, (2,))]
 RESULT = (k.value, k.name, k is Lazy.SAVE, k is Lazy.MEMO, Lazy("realmemoize") is Lazy.MEMO, [m.name for m in Lazy], q[1][0] is Lazy.SAVE, k.describe(), k == Lazy.SAVE, k != Lazy.WRITE, isinstance(k, Lazy), {Lazy.SAVE: 1}[k])
 ''', "('realsave', 'SAVE', True, False, True, ['SAVE', 'MEMO', 'WRITE'], True, 'save', True, True, True, 1)"),
+    ("attrgetter-walks-dotted-names", '''
+import operator
+class O: pass
+o = O(); o.net = O(); o.net.role = "inner"
+setattr(o, "net.role", "flat")
+try:
+    operator.attrgetter("x.y")(o)
+    missing = "no error"
+except AttributeError:
+    missing = "AttributeError"
+RESULT = (operator.attrgetter("net.role")(o), getattr(o, "net.role"), hasattr(o, "net.role"), missing)
+''', "('inner', 'flat', True, 'AttributeError')"),
+    ("containers-changed-while-iterated", '''
+xs = [1, 2, 3, 4]
+seen = []
+for x in xs:
+    seen.append(x)
+    if x == 2:
+        xs.remove(1)
+ys = [1, 2]
+grown = []
+for y in ys:
+    grown.append(y)
+    if len(ys) < 4:
+        ys.append(y + 10)
+d = {"a": 1, "b": 2}
+try:
+    for k in d:
+        d[k + "x"] = 0
+    dres = "no error"
+except RuntimeError:
+    dres = "RuntimeError"
+s = {1}
+try:
+    for e in s:
+        s.add(e + 1)
+    sres = "no error"
+except RuntimeError:
+    sres = "RuntimeError"
+zs = [1, 2, 3]
+comp = [z for z in zs if (zs.pop() if z == 1 else True)]
+RESULT = (seen, grown, dres, sres, comp)
+''', "([1, 2, 4], [1, 2, 11, 12], 'RuntimeError', 'RuntimeError', [1, 2])"),
 ]
 
 
